@@ -3,7 +3,7 @@ From Coq Require Import List NArith ZArith.
 Import ListNotations.
 
 (* lib/store/cleanup.go: isDownloadedByConsumer, comparison #0 (>), operand 1 *)
-Definition cleanup_consumer_gap_ns : Z := 2000000000%Z.
+Definition cleanup_consumer_gap_ns : Z := 1000000000%Z.
 (* lib/store/cleanup.go: forSureInAgent, comparison #0 (>), operand 1 *)
 Definition cleanup_agent_gap_ns : Z := 2700000000000%Z.
 (* lib/store/cleanup.go: assignment to .Interval in CleanupConfig.applyDefaults *)
